@@ -17,14 +17,14 @@ NEEDS = ["harness", "cli"]
 RULE = ("(a) pmf grid: hypergeometric_pmf(N,K,n,k) for ALL 0<=K<=N, 0<=n<=N, 0<=k<=n with N<=Nmax (quick 26, thorough 48); "
         "(b) every N from Nmax+1 to 168 with seeded queries centred on n~N/2, k~mode, and large one-axis sizes N in {50,169..172,340,341,500,1000,1029,1030,1500,2000,3000,4000}: seeded (K,n,k) samples always including "
         "n in {1,N/2,N-1,N}, K in {0,1,N/2,N} and the mode k; (c) operator wiring: every unit vector of every shape in a grid (1-3 axes) "
-        "projected to every admissible target; (c2) Spectrum::project of sparse one-/two-axis spectra between LARGE sizes (N up to 4000 chromosomes down to targets in the hundreds/thousands, mass at intermediate allele counts) vs big-integer reference; (d) random signed/real spectra (1-4 axes) vs exact rational projection, and the laws mass, "
+        "projected to every admissible target; (c2) Spectrum::project of sparse one-/two-axis spectra between LARGE sizes (N up to 4000 chromosomes down to targets in the hundreds/thousands, mass at intermediate allele counts) vs big-integer reference; (c3) the same pmf queries and projections issued from 2-16 threads that start together in a fresh process (harness op `mt`), sizes above 170 chromosomes; (d) random signed/real spectra (1-4 axes) vs exact rational projection, and the laws mass, "
         "non-negativity, identity (exact), two-step == direct, commutes with marginalization; (e) inadmissible targets -> the stated error; "
         "(f) CLI view --project-shape/-individuals. Tolerance: relative 1e-9 of the exact coefficient (abs 1e-300), 1e-9*sum|x| for spectra. "
         "Non-trivial: a coefficient strictly between 0 and 1 / a projection that really reduces a size; distinct = digest of the query.")
 ASSUMPTIONS = ["exact reference: math.comb big integers and fractions.Fraction",
                "measured worst relative error of the real pmf is ~3e-12, so 1e-9 has a 300x margin while a wrong index/weight is off by >=1e-3"]
-FLOORS = {"quick": {"evaluations": 50000, "distinct_nontrivial": 20000, "counts": {"pmf_grid": 40000, "pmf_large": 5000, "unit_vectors": 2000, "random_spectra": 300, "big_target_projections": 150}},
-          "thorough": {"evaluations": 1000000, "distinct_nontrivial": 300000, "counts": {"pmf_grid": 700000, "pmf_large": 100000, "unit_vectors": 20000, "random_spectra": 10000, "big_target_projections": 4000}}}
+FLOORS = {"quick": {"evaluations": 50000, "distinct_nontrivial": 20000, "counts": {"pmf_grid": 40000, "pmf_large": 5000, "unit_vectors": 2000, "random_spectra": 300, "big_target_projections": 150, "concurrent_evaluations": 5000}},
+          "thorough": {"evaluations": 1000000, "distinct_nontrivial": 300000, "counts": {"pmf_grid": 700000, "pmf_large": 100000, "unit_vectors": 20000, "random_spectra": 10000, "big_target_projections": 4000, "concurrent_evaluations": 100000}}}
 NSHARD = 32
 LARGE = [50, 169, 170, 171, 172, 340, 341, 500, 1000, 1029, 1030, 1500, 2000, 3000, 4000]
 REL = 1e-9
@@ -34,7 +34,7 @@ def plan(tier, seed):
     nmax = 26 if tier == "quick" else 56
     per_large = 30 if tier == "quick" else 1500
     return [{"name": "s%d" % i, "i": i, "nmax": nmax, "per_large": per_large, "rand": 14 if tier == "quick" else 2500,
-             "units": 1 if tier == "quick" else 10, "bigproj": 6 if tier == "quick" else 150, "cli": 3 if tier == "quick" else 250} for i in range(NSHARD)]
+             "units": 1 if tier == "quick" else 10, "bigproj": 6 if tier == "quick" else 150, "mt": 3 if tier == "quick" else 40, "cli": 3 if tier == "quick" else 250} for i in range(NSHARD)]
 
 
 def close(got, exact, scale=None):
@@ -203,6 +203,67 @@ def check_big_targets(S, p):
             S.viol("C03:value:big-target", "[%s] %d cell(s) off; first (flat, got, exact) %r; output mass %r of %r" % (
                 tag, len(bad), bad[:4], sum(g for g in got if math.isfinite(g)), float(sum(Fraction(v) for v in c["src"].values()))), wit)
         S.case(key=digest(["big", c["shape"], c["to"], sorted(c["src"].items())]), nontrivial=m < N)
+
+
+def check_concurrent(S, p):
+    """The library used from several threads at once, each process fresh (harness op `mt`: jobs dealt to threads that start together
+    behind a barrier): first uses of sizes above 170 chromosomes coincide, so anything the library shares between callers (tables,
+    caches) is filled concurrently. Every coefficient and every projected cell must still be exact."""
+    rng = rng_for(S.seed, "c03", p["name"], "mt")
+    for rep in range(p["mt"]):
+        threads = rng.choice([2, 4, 8, 16])
+        jobs, metas = [], []
+        for j in range(threads * 2):
+            N = rng.choice([rng.randint(171, 400), rng.randint(171, 4000), rng.randint(171, 1100), 171 + j, 2000 - j])
+            qs = large_queries(rng, N, 6)[:: max(1, len(large_queries(rng, N, 6)) // 24)][:24]
+            if j % 3 == 2:
+                m = rng.randint(N // 3, N)
+                ks = sorted({rng.randint(0, N) for _ in range(3)})
+                data = [0.0] * (N + 1)
+                for k in ks:
+                    data[k] = float(rng.randint(1, 9))
+                jobs.append(spec_req([N + 1], data, do="project", to=[m + 1]))
+                metas.append(("project", N, m, {k: data[k] for k in ks}))
+            else:
+                jobs.append({"op": "hyper", "q": qs})
+                metas.append(("pmf", qs))
+        res = harness.run_all([{"op": "mt", "threads": threads, "jobs": jobs}])[0]
+        S.observe("concurrent_threads", threads)
+        wit0 = {"level": "L", "concurrent": {"threads": threads, "jobs": [m_[:3] if m_[0] == "project" else ["pmf", m_[1][:3]] for m_ in metas]}}
+        if "replies" not in res:
+            S.viol("C03:panic:concurrent", "[mt %d threads] failed: %s" % (threads, str(res)[:300]), wit0)
+            continue
+        from math import comb
+        for meta, r in zip(metas, res["replies"]):
+            if meta[0] == "pmf":
+                if not isinstance(r, dict) or "pmf" not in r:
+                    S.viol("C03:panic:concurrent", "[mt pmf] %s" % str(r)[:300], wit0)
+                    continue
+                for q, g in zip(meta[1], r["pmf"]):
+                    N, K, n, k = q
+                    S.count("concurrent_evaluations")
+                    e = hyp(k, N, K, n)
+                    gv = h2f(g) if not isinstance(g, dict) else float("nan")
+                    if not close(gv, e):
+                        S.viol("C03:coefficient:concurrent", "[pmf N=%d K=%d n=%d k=%d evaluated while %d threads use the library] returned %.17g, exact %.17g" % (
+                            N, K, n, k, threads, gv, float(e)), dict(wit0, pmf_query=q))
+                        break
+            else:
+                _, N, m, src = meta
+                S.count("concurrent_evaluations")
+                if not isinstance(r, dict) or "data" not in r:
+                    S.viol("C03:panic:concurrent", "[mt project] %s" % str(r)[:300], wit0)
+                    continue
+                den = comb(N, m)
+                exact = {}
+                for k, v in src.items():
+                    for j in range(max(0, m - (N - k)), min(m, k) + 1):
+                        exact[j] = exact.get(j, Fraction(0)) + Fraction(v) * Fraction(comb(k, j) * comb(N - k, m - j), den)
+                scale = sum(Fraction(v) for v in src.values())
+                bad = [(j, h2f(x), float(exact.get(j, 0))) for j, x in enumerate(r["data"]) if not close(h2f(x), exact.get(j, Fraction(0)), scale)]
+                if bad:
+                    S.viol("C03:value:concurrent", "[project [%d]->[%d] while %d threads use the library] (flat, got, exact) %r" % (N + 1, m + 1, threads, bad[:4]), wit0)
+        S.case(key=digest(["mt", rep, p["name"], S.seed]), nontrivial=True)
 
 
 def check_random(S, p):
@@ -429,6 +490,7 @@ def shard(S, p):
     check_pmf(S, p, qs, "pmf_medium")
     check_units(S, p)
     check_big_targets(S, p)
+    check_concurrent(S, p)
     check_random(S, p)
     check_errors(S, p)
     check_cli(S, p)
